@@ -31,6 +31,16 @@ CHECKS = {
         "runtime oracle on return values of the real helpers; finite sub-spaces enumerated exhaustively",
         "4/C20",
     ),
+    "C06": (
+        "exploration",
+        "Every matrix element returned by the real compute_overlap is compared with an independent exact evaluation (R.gto: "
+        "documented functions, Gauss-Hermite quadrature) under a derived conditioning + screening bound; shell-type pairs up to "
+        "l=4 (quick) / l=7 (thorough), table entries and kernels are enumerated exhaustively, bases/geometries/conventions are "
+        "sampled; metamorphic relations (symmetry, PSD, transpose, translation, convention permutation) are asserted on the same "
+        "runs. 'For all real centres/exponents' is out of reach: one symbolic-argument execution per 1-D kernel is observed.",
+        "runtime oracle: real compute_overlap vs independent reference integrals; symbolic-argument execution of the kernel",
+        "4/C06",
+    ),
 }
 
 NOT_YET = "check not built yet (work in progress; see DESIGN.md section 5b)"
